@@ -50,10 +50,19 @@ def base_library(i):
         return bibtexparser.parse_string("@a{bad, author = {A, B, C, D and E F}, t = {x}}\n@b{ok, author = {G H}}", append_middleware=[mw.SeparateCoAuthors(), mw.SplitNameParts()])
     if i == n + 3:  # int values
         return bibtexparser.parse_string(DOCS[7], append_middleware=[mw.MonthIntMiddleware()])
+    if i == n + 4:  # separated names, one of them invalid: a later SplitNameParts makes the error block itself
+        return bibtexparser.parse_string(
+            "@a{ok1, author = {G H}}\n@a{bad, author = {I J and A, B, C, D and E F}, editor = {K L}, t = {x}}\n@b{ok2, author = {M N}}",
+            append_middleware=[mw.SeparateCoAuthors()],
+        )
+    if i == n + 5:  # a long document (size thresholds)
+        from .. import bigdocs
+
+        return bibtexparser.parse_string(bigdocs.document(130, 1)[0] + "\n@article{Key0:x, dup = {d}}\n@broken{zz, a b}\n")
     raise IndexError(i)
 
 
-NLIBS = len(DOCS) + 4
+NLIBS = len(DOCS) + 6
 
 
 def pool():
